@@ -3,7 +3,7 @@
    `exported tg k t` evaluates the Jinja expression from which target tg's template renders constant k (template scan,
    Generated/Gen_C05.v) with the T2-translated filters; `filter_*`, `get_best_fit` are the translated functions of /repo. *)
 From Coq Require Import List NArith ZArith Bool.
-From Verif Require Import Str Wire WireThm Walker MetaC05Base MetaC05Rne Gen_C05 MetaC05 WalkerSafe MetaC05Thm MetaC05LitThm MetaC05StoThm MetaC05Float MetaC05FltThm MetaC05TightThm.
+From Verif Require Import Str Wire WireThm Walker MetaC05Base MetaC05Rne Gen_C05 MetaC05 WalkerSafe MetaC05Thm MetaC05LitThm MetaC05StoThm MetaC05Float MetaC05FltThm MetaC05TightThm MetaC05RndThm.
 Import ListNotations.
 Local Open Scope Z_scope.
 
@@ -88,7 +88,7 @@ Print Assumptions c05_cpp_capcheck_is_spec.
    any primitives, and by C04's instrumented walker with an EMPTY access log (nothing read or written: Codec/WalkerSafeThm.v
    too_small_no_write, also stated as c04_too_small_no_write) *)
 Theorem c05_too_small_refused : forall tg P c t v o buf cap q, In tg buffer_targets -> is_comp t = true ->
-  exported tg KBufferBytes t = Some q -> Z.of_nat cap < q -> up_front c = true ->
+  exported tg KBufferBytes t = Some q -> Z.of_nat cap < q -> plan_ok c -> up_front c = true ->
   ser_spec t v cap = Err ETooSmall /\ walk_ser P t v buf cap = Err ETooSmall /\ walk_ser_safe c t o cap = (Err ETooSmall, []).
 Proof. exact too_small_refused. Qed.
 Print Assumptions c05_too_small_refused.
@@ -209,11 +209,10 @@ Print Assumptions c05_cast_formats_pinned.
    c_eval64: N.0 and D.0 are rounded to double by the compiler, then one IEEE division; or the single decimal constant.
    REFUTED: "within one ulp of the correctly rounded rational" does not hold for float64 divisions with inexact operands
    (finding F-FLOAT-OPERAND-ROUNDING, witness evaluates two ulps off; reproduced on the generated C with gcc and clang) *)
-Theorem c05_float64_one_ulp_refuted : float_rule = DivIfBelowLimit -> exists n d,
-  0 < d /\ d <> 1 /\ division_rendered n d = true /\
-  forall rf, exists x, c_eval64 rf n d = Some x /\ ford binary64 x - ford binary64 (rne binary64 n d) = 2.
-Proof. exact float64_one_ulp_refuted. Qed.
-Print Assumptions c05_float64_one_ulp_refuted.
+(* the regenerated fact is the repaired rule: an OBLIGATION (a regression of _float_division_expr flips it; the refutation of the
+   one-ulp claim under the old rule lives in History/C05_history.v) *)
+Example c05_float_rule_live : float_rule = DivIfExactOperands.
+Proof. reflexivity. Qed.
 
 (* `float_rule` is a FACT REGENERATED from _float_division_expr on every run: DivIfBelowLimit = the code with finding
    F-FLOAT-OPERAND-ROUNDING (the refutation above is the live statement, the next one is vacuous), DivIfExactOperands = the repaired code
@@ -246,6 +245,32 @@ Theorem c05_float64_oracle_certified_correct : forall rf n d, d <> 1 -> division
   exists x, c_eval64 rf n d = Some x /\ fbits binary64 x = fbits binary64 (rne binary64 n d).
 Proof. exact float64_oracle_certified_correct. Qed.
 Print Assumptions c05_float64_oracle_certified_correct.
+
+(* ---- exported names and flags ---- *)
+(* every macro / constexpr the C and C++ templates declare has a row in the model (Gen/MetaC05.v c_rows, cpp_rows); a new exported
+   name without a row breaks this *)
+Theorem c05_names_ok : names_ok = true.
+Proof. exact names_ok_holds. Qed.
+Print Assumptions c05_names_ok.
+
+(* _HAS_FIXED_PORT_ID_ / _traits_::HasFixedPortID: the literal of the unique rendering site whose Jinja branch is taken is `true`
+   exactly when the type has a fixed port id (0 included) *)
+Theorem c05_exported_port_flag_exact : forall p svc,
+  exported_flag TgtC n_c_has_port p svc = Some (match p with Some _ => true | None => false end) /\
+  exported_flag TgtCpp n_cpp_has_port p svc = Some (match p with Some _ => true | None => false end).
+Proof. exact exported_port_flag_exact. Qed.
+Print Assumptions c05_exported_port_flag_exact.
+
+Theorem c05_cpp_is_service_type_exact : forall p svc, exported_flag TgtCpp n_cpp_is_service_type p svc = Some svc.
+Proof. exact cpp_is_service_type_exact. Qed.
+Print Assumptions c05_cpp_is_service_type_exact.
+
+(* float32 / float16 constants: the double rounding RN32(RN64 q) can be exactly one binary32 ulp off (worst case exhibited; the upper
+   bound of one ulp is argued and checked at run time, NOT proved) *)
+Theorem c05_float32_double_rounding_worst_case : exists a b, 0 < b /\
+  fbits32 (rne binary32 a b) = 1065353217 /\ fbits32 (cast32_of_64 a b) = 1065353216 /\ exact64 a = false.
+Proof. exact float32_double_rounding_worst_case. Qed.
+Print Assumptions c05_float32_double_rounding_worst_case.
 
 (* ---- boolean constants, full name and version, Python class constants ---- *)
 Theorem c05_bool_literal_denotes : forall b,
